@@ -248,6 +248,47 @@ theorem write_before_check_false : ¬ write_before_check := by
   exact h (exCtx 24) exMsg [.data 0, .dAssign 3] _ (by decide) (by decide) (by decide) rfl (by decide) (by decide) 10
     (by decide)
 
+/-! ### completed calls are clean: every accessor kind, whatever the order of checks and accesses -/
+
+/-- tie to the code: `resize(count, default_init)` checks unconditionally.  `assign_range` and
+    `assign(first, last)` rely on that check as the ONLY one covering what they have already copied. -/
+theorem resize_check_unconditional :
+    dynamic_array_ref_resize__count_default_init_t.checkCond? 0 = some none := resize_unconditional
+
+/-- also for the kinds that access BEFORE they check (`assign_range`, `assign(first, last)`): if the
+    call completes without a failed check, no byte outside `[p, p+n)` was touched — the copy is
+    covered by the check of the `resize` that follows it -/
+theorem completed_call_clean (c : Ctx) (m : MsgL) (ops : List Op) (evs : List Ev)
+    (hwf : c.WF) (hb : IsBytes c.buf) (hok : opsOk c (.msg m) ops = true)
+    (hw : walk c (.msg m) ops = some evs) (hv : PtrsRepresentable c evs) (hnw : NoWrap evs)
+    (hg : guard evs = true) : allInside c.n (touches evs) = true := by
+  have hn : c.base + c.n < 2^63 := by have := hwf.2; omega
+  have hc := canon_of_isBytes c hb
+  have hf := walk_faithful c hn hc ops (.msg m) evs trivial hok hw
+  exact any_inside c.n _ (checks_bound c hwf evs hf hv hnw hg) evs (walk_any c hn hc ops (.msg m) evs trivial hok hw)
+
+/-- the same in the form the canary buffers observe: with the view inside a larger allocation, a
+    call that returns normally has not written behind the view -/
+theorem no_silent_write (c : Ctx) (m : MsgL) (ops : List Op) (evs : List Ev) (slack : Nat) (dirty : Bool)
+    (hwf : c.WF) (hb : IsBytes c.buf) (hok : opsOk c (.msg m) ops = true)
+    (hw : walk c (.msg m) ops = some evs) (hv : PtrsRepresentable c evs) (hnw : NoWrap evs)
+    (hr : runCanary c.n slack evs 0 false = (.ok, dirty)) : dirty = false := by
+  have h := runCanary_ok c.n slack evs 0 false dirty hr
+  exact h.2 (completed_call_clean c m ops evs hwf hb hok hw hv hnw h.1)
+
+/-- `m.d().assign_range(r)` with 3 elements on the complete 24-byte view inside a larger allocation:
+    the copy writes byte 24, THEN the handler is invoked (assert after write: the open finding) -/
+example : ∃ evs, walk (exCtx 24) (.msg exMsg) [.data 0, .dAssign 3] = some evs ∧
+    runCanary 24 64 evs 0 false = (.assertFailed 11, true) := ⟨_, rfl, by decide⟩
+
+/-- `assign(3, v)`, `assign({a,b,c})` and `push_back` on the same view: handler first, nothing written -/
+example : ∃ evs, walk (exCtx 24) (.msg exMsg) [.data 0, .dAssignN 3] = some evs ∧
+    runCanary 24 64 evs 0 false = (.assertFailed 9, false) := ⟨_, rfl, by decide⟩
+example : ∃ evs, walk (exCtx 24) (.msg exMsg) [.data 0, .dAssignIlist 3] = some evs ∧
+    runCanary 24 64 evs 0 false = (.assertFailed 9, false) := ⟨_, rfl, by decide⟩
+example : ∃ evs, walk (exCtx 24) (.msg exMsg) [.data 0, .dPush] = some evs ∧
+    runCanary 24 64 evs 0 false = (.assertFailed 11, false) := ⟨_, rfl, by decide⟩
+
 /-! ### cursor-based accessors -/
 
 /-- a traversal with cursors (every member before the target through the plain cursor, entries
